@@ -20,7 +20,8 @@
 //!   hence by the node configuration).
 //! * **Space 2 — decodable bytes.** (a) the substitution / truncation / insertion neighbourhood
 //!   (every position × {00,01,3f,40,7f,80,bf,c0,ff, b−1, b+1}, cut here, 9 insertions) of every
-//!   encoded message of space 1 with ≤ 8 elements (quick: a 52-message sub-product); (b) every
+//!   encoded message of space 1 with ≤ 8 elements (quick: a 48-message sub-product of the node
+//!   announcements and one of the three 1 KiB filters); (b) every
 //!   byte string of length ≤ 2 (quick) / ≤ 3 (thorough) after each 2-byte message type, valid or
 //!   not; (c) ping / pong byte strings whose zero count is at / above the documented maximum.
 //!   Oracle: if `deserialize` succeeds then `serialize(decoded) == input`, except when the input
@@ -30,7 +31,7 @@
 #[path = "../c13_codec.rs"]
 mod c13_codec;
 
-use c13_codec::{addr, device, filter, hex, hex_head, inv_ann, mutation, oid, refs_ann, rid, ts, unhex, Mutation, NeighbourSpace, ADDR_KINDS, TS_MAX};
+use c13_codec::{addr, device, filter, hex, hex_head, inv_ann, mutation, oid, refs_ann, rid, ts, unhex, NeighbourSpace, ADDR_KINDS, TS_MAX};
 use mcx::panics::Caught;
 use mcx::report::{Ctx, Violation};
 use mcx::sweep::{self, ItemOut, Radix, Stats};
@@ -348,20 +349,21 @@ fn unique_encoding(input: &[u8], family: &str, witness: &dyn Fn() -> Value) -> (
     if ty == "node-announcement" && buf.len() == input.len() + DEFAULT_AGENT_ENCODED.len() && buf.starts_with(input) && buf.ends_with(DEFAULT_AGENT_ENCODED) {
         return ("decodes-excepted:node-announcement-without-user-agent".into(), vec![]);
     }
-    let shape = if buf.len() > input.len() {
-        "reencoding-longer"
-    } else if buf.len() < input.len() {
-        "reencoding-shorter"
-    } else {
-        "same-length-different-bytes"
-    };
+    // Abstract shape: the field of the re-encoding in which the first difference lies.
     let first = input.iter().zip(buf.iter()).position(|(a, b)| a != b).unwrap_or(input.len().min(buf.len()));
+    let shape = match &m {
+        Message::Ping(_) if first >= 6 => "zero-bytes",
+        Message::Pong { .. } if first >= 4 => "zero-bytes",
+        Message::Announcement(Announcement { message: AnnouncementMessage::Node(n), .. }) if first + 1 + n.agent.as_str().len() >= buf.len() => "user-agent",
+        _ if buf.len() != input.len() => "other-field/length-differs",
+        _ => "other-field/same-length",
+    };
     (
         format!("DECODES-NON-CANONICAL:{ty}/{shape}"),
         vec![Violation::new(
             format!("C15/unique-encoding/{ty}/{shape}"),
             format!(
-                "{family}: {} bytes [{}] decode to {m:?} but re-encode to {} bytes [{}] (first difference at offset {first})",
+                "{family}: {} bytes [{}] decode to {m:?} but re-encode to {} bytes [{}] (first difference at offset {first}, in the {shape} part)",
                 input.len(),
                 hex_head(input, 32),
                 buf.len(),
@@ -436,32 +438,59 @@ fn overlimit_bytes(kind: &str, zeroes: u16) -> Vec<u8> {
     b
 }
 
-fn eval_space2(sp: &Space2, i: u64) -> ItemOut {
+/// The input of item `i` of space 2, with its witness and a description of the family.
+fn space2_item(sp: &Space2, i: u64) -> (Vec<u8>, Value, String, String) {
     if i < sp.neigh.size() {
         let (k, j) = sp.neigh.locate(i);
         let (desc, bytes) = &sp.base[k];
         let m = mutation(bytes, j);
         let input = m.apply(bytes);
-        let identity = input == *bytes;
-        let w = || json!({"space": "decodable", "family": "neighbourhood", "of": desc, "mutation": m.to_json(), "input_hex": hex(&input)});
-        let (label, vs) = unique_encoding(&input, &format!("{} of {desc} at {}", m.op(), m.pos()), &w);
-        let class = if identity { 0 } else { mcx::fnv64(format!("{}|{}|{label}", type_name(bytes), m.op()).as_bytes()) | 1 };
-        ItemOut::new(class, format!("neighbourhood/{label}")).with(vs)
+        let w = json!({"space": "decodable", "family": "neighbourhood", "of": desc, "mutation": m.to_json(), "input_hex": hex(&input)});
+        let shape = if input == *bytes { String::new() } else { format!("{}|{}", type_name(bytes), m.op()) };
+        (input, w, format!("{} of {desc} at {}", m.op(), m.pos()), shape)
     } else if i < sp.neigh.size() + sp.n_bytes() {
         let j = i - sp.neigh.size();
         let ty = TYPES[(j / sp.n_strings) as usize];
         let tail = c13_codec::string_at(sp.max_len, j % sp.n_strings);
         let input = [&ty.to_be_bytes()[..], &tail[..]].concat();
-        let w = || json!({"space": "decodable", "family": "type+bytes", "input_hex": hex(&input)});
-        let (label, vs) = unique_encoding(&input, "message type followed by a short byte string", &w);
-        let class = mcx::fnv64(format!("{ty}|{}|{label}", tail.len()).as_bytes()) | 1;
-        ItemOut::new(class, format!("type+bytes/{label}")).with(vs)
+        let w = json!({"space": "decodable", "family": "type+bytes", "input_hex": hex(&input)});
+        (input, w, "message type followed by a short byte string".into(), format!("{ty}|{}", tail.len()))
     } else {
         let (kind, z) = sp.overlimit[(i - sp.neigh.size() - sp.n_bytes()) as usize];
         let input = overlimit_bytes(kind, z);
-        let w = || json!({"space": "decodable", "family": "zero-count-at-or-above-maximum", "kind": kind, "zeroes": z, "input_len": input.len()});
-        let (label, vs) = unique_encoding(&input, &format!("{kind} with {z} zero bytes ({} bytes)", input.len()), &w);
-        ItemOut::new(mcx::fnv64(format!("{kind}|{z}").as_bytes()) | 1, format!("zero-count({kind},{})/{label}", if input.len() > LIMIT { ">65535B" } else { "≤65535B" })).with(vs)
+        let w = json!({"space": "decodable", "family": "zero-count-at-or-above-maximum", "kind": kind, "zeroes": z, "input_len": input.len()});
+        let what = format!("{kind} with {z} zero bytes ({} bytes)", input.len());
+        (input, w, what, format!("{kind}|{z}"))
+    }
+}
+
+fn eval_space2(sp: &Space2, i: u64) -> ItemOut {
+    // The witness is only rendered when a violation needs it.
+    let (input, _, what, shape) = space2_item_lazy(sp, i);
+    let (label, vs) = unique_encoding(&input, &what, &|| space2_item(sp, i).1);
+    let family = if i < sp.neigh.size() {
+        "neighbourhood".to_string()
+    } else if i < sp.neigh.size() + sp.n_bytes() {
+        "type+bytes".to_string()
+    } else {
+        format!("zero-count({})", if input.len() > LIMIT { ">65535B" } else { "≤65535B" })
+    };
+    let class = if shape.is_empty() { 0 } else { mcx::fnv64(format!("{shape}|{label}").as_bytes()) | 1 };
+    ItemOut::new(class, format!("{family}/{label}")).with(vs)
+}
+
+/// Same as [`space2_item`] without rendering the (hex) witness.
+fn space2_item_lazy(sp: &Space2, i: u64) -> (Vec<u8>, (), String, String) {
+    if i < sp.neigh.size() {
+        let (k, j) = sp.neigh.locate(i);
+        let (desc, bytes) = &sp.base[k];
+        let m = mutation(bytes, j);
+        let input = m.apply(bytes);
+        let shape = if input == *bytes { String::new() } else { format!("{}|{}", type_name(bytes), m.op()) };
+        (input, (), format!("{} of {desc} at {}", m.op(), m.pos()), shape)
+    } else {
+        let (input, _, what, shape) = space2_item(sp, i);
+        (input, (), what, shape)
     }
 }
 
@@ -530,7 +559,10 @@ fn main() {
     st.merge(sweep::threads(
         s2.size(),
         |i| eval_space2(&s2, i),
-        Some(|i: u64, c: &Caught| panic_violation(c, "decode / re-encode of received bytes", json!({"space": "decodable", "index": i, "note": "re-run the tier to reproduce"}))),
+        Some(|i: u64, c: &Caught| {
+            let (_, w, what, _) = space2_item(&s2, i);
+            panic_violation(c, &format!("decode / re-encode of received bytes ({what})"), w)
+        }),
     ));
 
     let samples = vec![
@@ -541,7 +573,7 @@ fn main() {
     ];
     let mut cov = st.coverage(
         "space 1: full product of the per-field boundary alphabets of each Message variant (node 3·3·3·3·12·2·4, inventory 4·3·2, refs 2·4·3, subscribe 5·3·3, ping 5·3, pong 3, info 2·2) plus one announcement with a 256-byte DNS name; \
-         space 2: (a) every position × {9 substitutions, b-1, b+1, cut, 9 insertions} of every encoded space-1 message with ≤ 8 elements (quick: 52-message sub-product), \
+         space 2: (a) every position × {9 substitutions, b-1, b+1, cut, 9 insertions} of every encoded space-1 message with ≤ 8 elements (quick: 48-message sub-product of the node announcements, one of the three 1 KiB filters), \
          (b) each of 9 two-byte message types followed by every byte string of length ≤2 (quick) / ≤3 (thorough), (c) ping/pong byte strings with a zero count at, one above, and far above the documented maximum; \
          trivial = a mutation that leaves the message unchanged; distinct = distinct message (space 1) / distinct (message type, operation or tail length, decoder verdict) (space 2)",
         samples,
